@@ -345,11 +345,10 @@ def _check_tables(ctx, rep):
         if m is None:
             raise AnalysisError("CompositeSystem.%s not found" % acc)
         field = "_" + acc
-        rets = returns(m)
-        ret_ok = len(rets) == 1 and unparse(rets[0].value) == "self.%s" % field
-        guard = [n for n in own_nodes(m.node) if isinstance(n, ast.If) and unparse(n.test) == "self.%s is None" % field]
+        from ..astutil import lazy_accessor
+        guard, region, ret_ok = lazy_accessor(m, field)
         built = False
-        for g in guard:
+        for g in region:
             for n in ast.walk(g):
                 if isinstance(n, ast.Call) and isinstance(n.func, ast.Attribute) and isinstance(n.func.value, ast.Name) \
                         and n.func.value.id == "self":
